@@ -1,18 +1,28 @@
 CHECK = {
         "obligations": ["C20.c20_doc", "C20.c20_reject", "C20.c20_ssv_partial", "C20.gen_ssv", "C20.unescape_render", "CC.replaceAll_two", "C20.methods_exact", "C20.gen_structure", "C20.gen_numeric", "C20.gen_keepalive",
                         "C20.gen_pubkey", "C20.gen_altname", "C20.gen_tables", "C20.keepAlive_doc", "C20.timeout_doc",
-                        "C20.numConn_doc", "C20.mockList_doc", "C20.transport_doc", "C20.pinned_keepalive", "C20.pinned_doc_false"],
+                        "C20.numConn_doc", "C20.mockList_doc", "C20.transport_doc", "C20.pinned_keepalive", "C20.pinned_doc_false",
+                        "C20.gen_parse", "C20.gen_main_derefs", "C20.c20_load_total", "C20.pinned_null_crashes",
+                        "C20.c20_ssv_full_partial", "C20.ssv_semicolon_splits", "C20.c20_ssv_witness", "C20.ssv_mirrored_oddities",
+                        "C20.gen_connect", "C20.processRaw_ok_fields", "C20.c20_no_crash_partial", "C20.c20_no_crash_witness",
+                        "C20.c20_random_partial", "C20.c20_random_witness"],
         "scenarios": ["C20"],
         "reset_ops": ["cfg."],
         "rule": "logical configurations rendered as JSON and as the escaped option string: every presence/absence combination of the 9 optional keys "
                 "(512) x 4 (thorough 60) value draws (mixed case names, `\\=` escapes in base64/paths/names, empty alternative names, IPv6 hosts, "
                 "zero/negative/large numbers); each parsed through json.Unmarshal or ParseConfig(file) and ParseConfig(option string), both processed; "
                 "the KeepAlive=5 witness; 360 (5400) invalid configurations (each mandatory key missing / empty, public key of wrong length, unknown method); "
-                "600 (20000) arbitrary option strings over an alphabet with unescaped `; = \\ \" ,` for ssvToJson. "
+                "600 (20000) arbitrary option strings over an alphabet with unescaped `; = \\ \" ,` for ssvToJson; "
+                "12 configuration files whose top-level JSON value is null / not an object / the empty object (must end in an error, never (nil, nil)); "
+                "3 CDN configurations whose CDNWsUrlPath contains `;` (option string with the SIP003 escape `\\;`); 14 small-order + 10 random PublicKey values "
+                "through ProcessRawConfig and then makeAuthenticationPayload (first connection); ServerName random/RANDOM/Random/ordinary x direct (3 browsers) / CDN: "
+                "SNI of three real ClientHellos each (DirectTLS.Handshake / WSOverTLS.Handshake against a pipe). "
                 "non-trivial = at least one optional key present; distinct by (presence mask, draw)",
         "assumptions": ["encoding/json, net.JoinHostPort, file reading behave as documented (JSON decoding stays on the Go side)",
                         "strings.ToLower is a parameter of the theorems; the driver and the generators use ASCII",
                         "durations representable as time.Duration (hypothesis Fits of c20_doc)",
-                        "StreamTimeout default 300 s: README does not state it; taken from example_config/ckclient.json and the RawConfig comment"],
-        "trusted": ["harness/client/shim_c20.go (reads the unexported TransportConfig fields, exposes ssvToJson)"],
+                        "StreamTimeout default 300 s: README does not state it; taken from example_config/ckclient.json and the RawConfig comment",
+                        "curve25519.X25519 refuses exactly the small-order points (parameter dhFails of c20_no_crash_*; the harness asks the library itself)",
+                        "the option-string escapes are those of ssvToJson's own unescape table (SIP003 plugin options): README.md does not describe the option-string syntax"],
+        "trusted": ["harness/client/shim_c20.go (reads the unexported TransportConfig fields, exposes ssvToJson, makeAuthenticationPayload under recover, first record of a real Handshake over net.Pipe)"],
     }
